@@ -10,6 +10,7 @@ use rateslib::calendars::{
     get_eom, get_imm, get_roll, is_eom, is_imm, is_leap_year, Cal, CalType, DateRoll, Modifier, NamedCal, RollDay,
     UnionCal,
 };
+use rateslib::verif::calendar_py as cpy;
 use serde_json::{json, Value};
 
 pub const MODS: [(&str, Modifier); 5] = [
@@ -47,6 +48,52 @@ pub fn roll_json(r: &RollDay) -> Value {
         RollDay::IMM {} => json!({"k": "IMM"}),
     }
 }
+
+// ------------------------------------------------------------------------------------------ the Python-facing classes
+/// `Cal` / `UnionCal` / `NamedCal` as Python sees them: every DateRoll method goes through the `#[pymethods]` item of
+/// the same name (cfg-guarded hooks in rust/calendars/calendar_py.rs), so the unchanged drivers and the unchanged
+/// specification judge the Python layer. A raised exception where the core signature has no error is a panic here.
+macro_rules! py_wrapper {
+    ($W:ident, $T:ty, $date:path, $pred:path, $range:path) => {
+        pub struct $W(pub $T);
+        impl $W {
+            fn args(date: &NaiveDateTime, days: i8, months: i32, modifier: &Modifier, roll: &RollDay, settlement: bool) -> cpy::DateArgs {
+                cpy::DateArgs { date: *date, days, months, modifier: *modifier, roll: *roll, settlement }
+            }
+        }
+        impl DateRoll for $W {
+            fn is_weekday(&self, date: &NaiveDateTime) -> bool { self.0.is_weekday(date) }
+            fn is_holiday(&self, date: &NaiveDateTime) -> bool { self.0.is_holiday(date) }
+            fn is_settlement(&self, date: &NaiveDateTime) -> bool { $pred(&self.0, "is_settlement", *date).unwrap() }
+            fn is_bus_day(&self, date: &NaiveDateTime) -> bool { $pred(&self.0, "is_bus_day", *date).unwrap() }
+            fn is_non_bus_day(&self, date: &NaiveDateTime) -> bool { $pred(&self.0, "is_non_bus_day", *date).unwrap() }
+            fn roll(&self, date: &NaiveDateTime, modifier: &Modifier, settlement: bool) -> NaiveDateTime {
+                $date(&self.0, "roll", &Self::args(date, 0, 0, modifier, &RollDay::Unspecified {}, settlement)).expect("roll raised")
+            }
+            fn lag(&self, date: &NaiveDateTime, days: i8, settlement: bool) -> NaiveDateTime {
+                $date(&self.0, "lag", &Self::args(date, days, 0, &Modifier::Act, &RollDay::Unspecified {}, settlement)).expect("lag raised")
+            }
+            fn add_days(&self, date: &NaiveDateTime, days: i8, modifier: &Modifier, settlement: bool) -> NaiveDateTime {
+                $date(&self.0, "add_days", &Self::args(date, days, 0, modifier, &RollDay::Unspecified {}, settlement)).expect("add_days raised")
+            }
+            fn add_bus_days(&self, date: &NaiveDateTime, days: i8, settlement: bool) -> Result<NaiveDateTime, pyo3::PyErr> {
+                $date(&self.0, "add_bus_days", &Self::args(date, days, 0, &Modifier::Act, &RollDay::Unspecified {}, settlement)).map_err(pyo3::exceptions::PyValueError::new_err)
+            }
+            fn add_months(&self, date: &NaiveDateTime, months: i32, modifier: &Modifier, roll: &RollDay, settlement: bool) -> NaiveDateTime {
+                $date(&self.0, "add_months", &Self::args(date, 0, months, modifier, roll, settlement)).expect("add_months raised")
+            }
+            fn bus_date_range(&self, start: &NaiveDateTime, end: &NaiveDateTime) -> Result<Vec<NaiveDateTime>, pyo3::PyErr> {
+                $range(&self.0, "bus_date_range", *start, *end).map_err(pyo3::exceptions::PyValueError::new_err)
+            }
+            fn cal_date_range(&self, start: &NaiveDateTime, end: &NaiveDateTime) -> Result<Vec<NaiveDateTime>, pyo3::PyErr> {
+                $range(&self.0, "cal_date_range", *start, *end).map_err(pyo3::exceptions::PyValueError::new_err)
+            }
+        }
+    };
+}
+py_wrapper!(PyCal, Cal, cpy::cal_date, cpy::cal_pred, cpy::cal_range);
+py_wrapper!(PyUnion, UnionCal, cpy::union_date, cpy::union_pred, cpy::union_range);
+py_wrapper!(PyNamed, NamedCal, cpy::named_date, cpy::named_pred, cpy::named_range);
 
 pub struct Q<'a, T: DateRoll> {
     pub cal: &'a T,
@@ -153,10 +200,17 @@ pub fn replay(cases: &str, out: &str) {
         if c["sh"].as_array().unwrap().is_empty() {
             let q = battery(&bcal, q0, q1, nmax, true);
             o.emit(&event(&format!("gen/{}/Cal", i), "Cal", &bcal, lo, hi, q));
+            let pc = PyCal(bcal.clone());
+            let q = battery(&pc, q0, q1, nmax, true);
+            o.emit(&event(&format!("gen/{}/PyCal", i), "PyCal", &pc, lo, hi, q));
         }
         let parts = (vec![bcal.clone()], Some(vec![scal.clone()]));
         let u = UnionCal::new(parts.0.clone(), parts.1.clone());
-        if i % 2 == 0 {
+        if i % 4 == 1 {
+            let pu = PyUnion(u);
+            let q = battery(&pu, q0, q1, nmax, true);
+            o.emit(&event_u(&format!("gen/{}/PyUnionCal", i), "PyUnionCal", &pu, (&parts.0, &parts.1), lo, hi, q));
+        } else if i % 2 == 0 {
             let q = battery(&u, q0, q1, nmax, true);
             o.emit(&event_u(&format!("gen/{}/UnionCal", i), "UnionCal", &u, (&parts.0, &parts.1), lo, hi, q));
         } else {
@@ -283,9 +337,16 @@ pub fn record(seed: u64, n: usize, out: &str) {
                 let (centre, lo, hi) = window(&mut r, 7 - mask.len() as i64);
                 let c = Cal::new(rand_hols(&mut r, lo, hi, centre), mask);
                 wd.enter(&format!("rnd/{}/Cal", i));
-                let q = random_queries(&c, &mut r, centre, nq, lo, hi);
-                wd.leave();
-                o.emit(&event(&format!("rnd/{}/Cal", i), "Cal", &c, lo, hi, q));
+                if r.chance(0.3) {
+                    let pc = PyCal(c);
+                    let q = random_queries(&pc, &mut r, centre, nq, lo, hi);
+                    wd.leave();
+                    o.emit(&event(&format!("rnd/{}/PyCal", i), "PyCal", &pc, lo, hi, q));
+                } else {
+                    let q = random_queries(&c, &mut r, centre, nq, lo, hi);
+                    wd.leave();
+                    o.emit(&event(&format!("rnd/{}/Cal", i), "Cal", &c, lo, hi, q));
+                }
             }
             1 | 2 => {
                 let common = r.below(5) as u8;
@@ -303,7 +364,12 @@ pub fn record(seed: u64, n: usize, out: &str) {
                     Some((0..ns as usize).map(|k| Cal::new(rand_hols(&mut r, lo, hi, centre), masks[nm as usize + k].clone())).collect())
                 };
                 let u = UnionCal::new(members.clone(), settle.clone());
-                if r.coin() {
+                if r.chance(0.3) {
+                    let pu = PyUnion(u);
+                    wd.enter(&format!("rnd/{}/PyUnionCal", i));
+                    let q = random_queries(&pu, &mut r, centre, nq, lo, hi);
+                    o.emit(&event_u(&format!("rnd/{}/PyUnionCal", i), "PyUnionCal", &pu, (&members, &settle), lo, hi, q));
+                } else if r.coin() {
                     wd.enter(&format!("rnd/{}/UnionCal", i));
                     let q = random_queries(&u, &mut r, centre, nq, lo, hi);
                     o.emit(&event_u(&format!("rnd/{}/UnionCal", i), "UnionCal", &u, (&members, &settle), lo, hi, q));
@@ -322,7 +388,11 @@ pub fn record(seed: u64, n: usize, out: &str) {
                 let u = rateslib::verif::named_cal_union(&c).clone();
                 let parts = rateslib::verif::union_cal_parts(&u);
                 wd.enter(&format!("rnd/{}/NamedCal:{}", i, name));
-                if r.coin() {
+                if r.chance(0.3) {
+                    let pn = PyNamed(c);
+                    let q = random_queries(&pn, &mut r, centre, nq, lo, hi);
+                    o.emit(&event_u(&format!("rnd/{}/PyNamedCal:{}", i, name), "PyNamedCal", &pn, parts, lo, hi, q));
+                } else if r.coin() {
                     let q = random_queries(&c, &mut r, centre, nq, lo, hi);
                     o.emit(&event_u(&format!("rnd/{}/NamedCal:{}", i, name), "NamedCal", &c, parts, lo, hi, q));
                 } else {
